@@ -6,6 +6,7 @@ func init() {
 	vHarnesses["VH_C13_lit"] = VH_C13_lit
 	vHarnesses["VH_C13_tpl"] = VH_C13_tpl
 	vHarnesses["VH_C13_nest"] = VH_C13_nest
+	vHarnesses["VH_C13_holes"] = VH_C13_holes
 }
 
 var vC13Delims = []byte{'\'', '"', '`', 0x1e}
@@ -154,4 +155,55 @@ func VH_C13_nest() {
 	}
 	s, ok := vm.Ret.ReadString()
 	vAssert(ok && s == want, "nested-template-value")
+}
+
+var vC13VarHoles = []string{"arr", "dct", "[arr, 3]", "arr[0]", "sv", "iv", "arr + [iv]", "{'k': arr}"}
+
+func vC13VarVM(x, y int64) *Context {
+	vm := vNewVM()
+	vm.Attrs.Store("arr", NewArrayVal(NewIntVal(IntType(x)), NewIntVal(2)))
+	m := &ValueMap{}
+	m.Store("u", NewIntVal(IntType(y)))
+	vm.Attrs.Store("dct", NewDictVal(m).V())
+	vm.Attrs.Store("sv", NewStrVal("s t"))
+	vm.Attrs.Store("iv", NewIntVal(IntType(y)))
+	return vm
+}
+
+//vh:prop=C13 tiers=quick,thorough sigkeys=h1,h2,h3 overrides=formatFriendlyError budget_s=900 quick:P.three=0 thorough:P.three=1 bounds="templates < {e1} | {e2} > (thorough: a third hole {% e3 %}) in both template styles, holes from 8 expressions over variables holding an array, a dict, a string and an integer (integers are 64-bit symbols), all pairs (thorough: all triples) including the same container shown twice: the value is the concatenation of the segments and of each hole's string form as obtained by evaluating the hole alone"
+func VH_C13_holes() {
+	q := string(vC13Delims[2+vChoice("style", 2)])
+	x, y := vInt64("x"), vInt64("y")
+	hs := []int{vChoice("h1", len(vC13VarHoles)), vChoice("h2", len(vC13VarHoles))}
+	if vParam("three", 0) == 1 {
+		hs = append(hs, vChoice("h3", len(vC13VarHoles)))
+	}
+	src, want := q+"<", "<"
+	for i, h := range hs {
+		e := vC13VarHoles[h]
+		alone := vC13VarVM(x, y)
+		vAssume(alone.Run(e) == nil)
+		if i == 2 {
+			src += "{% " + e + " %}"
+		} else {
+			src += "{" + e + "}"
+		}
+		want += alone.Ret.ToString()
+		if i+1 < len(hs) {
+			src += "|"
+			want += "|"
+		}
+	}
+	src += ">" + q
+	want += ">"
+	vm := vC13VarVM(x, y)
+	err := vm.Run(src)
+	vReach("ran")
+	vAssert(err == nil, "template-is-accepted")
+	if err != nil {
+		return
+	}
+	s, ok := vm.Ret.ReadString()
+	vAssert(ok, "template-evaluates-to-a-string")
+	vAssert(s == want, "template-is-the-concatenation-of-segments-and-hole-string-forms")
 }
